@@ -87,6 +87,25 @@ func pools(quick bool) []poolDef {
 		always = append(always, "/"+s, "/{p0}/"+s)
 	}
 	ps = append(ps, poolDef{name: "fan51", patterns: []string{"/a", "/{p0}", "/*{c0}", "/a/{p1}", "/{p0}/a", "/{p0}/{p1}"}, paths: gen.Paths([]string{"a", "b", "0", "Z"}, 2), hosts: []string{""}, k: 2, always: always})
+	// fan-tsr: a slash child next to N static siblings with distinct first bytes (N = 31, 32, 40: below, at and above
+	// the size of the buffer the compiler gives a small []byte-to-string conversion), reached through the
+	// add-a-slash recommendation of an ignoring route
+	for _, n := range []int{31, 32, 40} {
+		var sib []string
+		for _, s := range fanStatics(n) {
+			sib = append(sib, "/x"+s)
+		}
+		ps = append(ps, poolDef{name: fmt.Sprintf("fan-tsr%d", n), patterns: []string{"/x/", "/x/{p0}/", "/x"}, paths: []string{"/x", "/x/", "/x/a", "/x/a/", "/x0", "/xc"}, hosts: []string{""}, k: 2, always: sib})
+	}
+	// host-fan: N hostname routes with distinct first bytes next to path-only routes, requests whose Host matches
+	// none of them (the lookup falls back to the path-only tree)
+	for _, n := range []int{31, 32, 36} {
+		var hs []string
+		for _, ch := range "abcdefghijklmnopqrstuvwxyz0123456789"[:n] {
+			hs = append(hs, string(ch)+"x.h/a")
+		}
+		ps = append(ps, poolDef{name: fmt.Sprintf("host-fan%d", n), patterns: []string{"/a", "/{p0}", "/a/{p1}", "/*{c0}"}, paths: gen.Paths([]string{"a", "b"}, 2), hosts: []string{"", "zz.unknown", "ax.h", "ay.h", "9x.h:80"}, k: 2, always: hs})
+	}
 	// overlap: at three consecutive levels a static child, a parameter child and a catch-all child
 	// (the walk records more skipped alternatives than the tree is deep)
 	ps = append(ps, poolDef{name: "overlap", patterns: []string{"/a", "/a/b", "/a/b/c", "/{p0}/b", "/a/{p1}/c", "/a/b/c/d"}, paths: gen.Paths([]string{"a", "b", "c", "z"}, 4), hosts: []string{""}, k: 2,
